@@ -41,6 +41,7 @@ func c17(c *Ctx) {
 	if n := c.freshPerIteration("C17.R5", "core/mapping"); n < 2 {
 		c.R.Undecided("C17.R5", "core/mapping#fresh", "per-iteration stores of reflect.New targets are recognised", fmt.Sprintf("%d found", n))
 	}
+	c17configCenterVerbatim(c)
 }
 
 func c17paths(c *Ctx) {
